@@ -1728,8 +1728,8 @@ class PyCdlib:
                             if self.isohybrid_mbr.mac:
                                 self.isohybrid_mbr.update_mac(entry_extent,
                                                               enc.entry.sector_count)
-                        elif self.isohybrid_mbr.efi:
-                            raise pycdlibexception.PyCdlibInternalError('Only expected two EFI sections')
+                        # Any further EFI images are in the boot catalog only;
+                        # the GPT and APM have no place for them.
                         num_seen_efi += 1
 
                 if not placed:
